@@ -120,22 +120,32 @@ def c04_gen(rng):
     return c04_build({"axes": axes, "steps": steps, "ws": [rs(w) for w in ws], "share": share})
 
 
+# optional per-step keys of the C04 N-d histories, copied onto the ops (see implnd.step): the numpy type carrying the values,
+# the form of a fill point, the memory layout of a fill_n array, transformed=True for the transformed classes
+C04_STEP_KEYS = ("vk", "vform", "layout", "transformed")
+
+
 def c04_build(src):
     ops = [{"op": "empty", "out": 0, "axes": src["axes"]}]
     if src.get("share"):
         ops[0]["share"] = True
+    if src.get("klass"):
+        ops[0]["klass"] = src["klass"]
     allv = []
     for s in src["steps"]:
+        extra = {k: s[k] for k in C04_STEP_KEYS if s.get(k)}
         if s["t"] == "fill":
-            ops.append({"op": "fill", "h": 0, "v": s["v"], "w": s["w"], "wk": "pyint" if "/" not in s["w"] else "pyfloat"})
-            allv.append(s["v"])
+            ops.append({"op": "fill", "h": 0, "v": s["v"], "w": s["w"],
+                        "wk": s.get("wk") or ("pyint" if "/" not in s["w"] else "pyfloat"), **extra})
+            allv.append((s["v"], extra))
         else:
-            ops.append({"op": "fill_n", "h": 0, "rows": s["rows"], "ws": s["ws"], "wkind": "float64"})
-            allv += s["rows"]
-    for v in allv:
-        ops.append({"op": "find_bin", "h": 0, "v": v})
-    return {"kind": "histn", "fuel": 64, "ops": ops, "tags": ["nd", f"d:{len(src['axes'])}"] + (["one_binning_object_for_all_axes"] if src.get("share") else []),
-            "src": src}
+            ops.append({"op": "fill_n", "h": 0, "rows": s["rows"], "ws": s["ws"], "wkind": s.get("wkind") or "float64", **extra})
+            allv += [(r, extra) for r in s["rows"]]
+    for v, extra in allv:
+        ops.append({"op": "find_bin", "h": 0, "v": v, **{k: x for k, x in extra.items() if k != "layout"}})
+    return {"kind": "histn", "fuel": 64, "ops": ops,
+            "tags": ["nd", f"d:{len(src['axes'])}"] + (["one_binning_object_for_all_axes"] if src.get("share") else [])
+            + list(src.get("tags", [])), "src": src}
 
 
 def c04_shrink(case):
@@ -144,6 +154,14 @@ def c04_shrink(case):
         s2 = copy.deepcopy(src)
         del s2["steps"][i]
         yield c04_build(s2)
+    for i, st in enumerate(src["steps"]):       # single rows of a batch (every history of fills stays well-formed)
+        if st["t"] == "fill_n" and len(st["rows"]) > 1:
+            for j in range(len(st["rows"])):
+                s2 = copy.deepcopy(src)
+                del s2["steps"][i]["rows"][j]
+                if s2["steps"][i]["ws"] is not None:
+                    del s2["steps"][i]["ws"][j]
+                yield c04_build(s2)
 
 
 def c04_oracle(case, io):
@@ -174,6 +192,15 @@ def c04_oracle(case, io):
                 xs = [p[ai] for p, _ in entered]
                 if any(pairs[i][1] != pairs[i + 1][0] for i in range(len(pairs) - 1)):
                     fails.append("not_contiguous: axis bins are not contiguous")
+                grid = (case["src"].get("grid") or [None] * len(axes))[ai]
+                if grid is not None:
+                    # aligned axis with a fixed shift: every edge = k * width + shift (in doubles, as the library computes
+                    # its edges) for consecutive integers k
+                    gw, gs = float(Fraction(grid[0])), float(Fraction(grid[1]))
+                    edges = [float(p[0]) for p in pairs] + [float(pairs[-1][1])]
+                    k0 = round((edges[0] - gs) / gw)
+                    if any(Fraction((k0 + i) * gw + gs) != Fraction(x) for i, x in enumerate(edges)):
+                        fails.append(f"off_grid: axis {ai}: the edges are not shift + k*width for consecutive k")
                 if xs and not (pairs[0][0] <= min(xs) < pairs[0][1]):
                     fails.append(f"span_low: axis {ai}: first bin does not contain the smallest coordinate")
                 if xs and not (pairs[-1][0] <= max(xs) < pairs[-1][1]):
